@@ -229,6 +229,7 @@ def one_by_zero(o):
 
 class C02(Family):
     prop = "C02"
+    extra_modules = ["CtrlVerif.Props.C02Tree"]      # tree theorem (structural induction)
     externals = ["numpy.linalg.solve / scipy.linalg.inv / matrix_rank (the model uses det != 0 and "
                  "the certified inverse det^-1 * adjugate)"]
     assumptions = [
